@@ -332,10 +332,110 @@ FIXED = [
 ]
 
 
+# ------------------------------------------------------------------------------------------
+# the same detectors collected into two declared streams, interleaved (the flats / projections / flats pattern of the
+# repository's own tomography test).  A detector's indices then run on across the streams, so of the statement's
+# clauses only these apply: per stream and key the seq_num ranges tile from 1 with the width of their index range
+# and end at the stream's num_events; per key the index ranges tile from 0 in emission order.
+
+
+def shared_cases():
+    from hypothesis import strategies as st
+
+    @st.composite
+    def gen(draw):
+        n = draw(st.integers(1, 2))
+        g = ["x1", "x2"][:n]
+        dets = {}
+        for o in g:
+            k = draw(st.integers(2, 6))
+            v, fr = 0, []
+            for _ in range(k):
+                v += draw(st.sampled_from([0, 1, 1, 2, 3]))
+                fr.append(v)
+            dets[o] = {"frames": fr}
+            if draw(st.booleans()):
+                dets[o]["keys"] = [f"{o}_a", f"{o}_b"]
+        seq = draw(st.lists(st.sampled_from(["fly", "fly2"]), min_size=2, max_size=6))
+        nodes = [M("open_run")]
+        for name in ("fly", "fly2"):
+            nodes.append(M("declare_stream", None, *[D(o) for o in g], name=name, collect=True))
+        for o in g:
+            nodes.append(M("kickoff", o, group="k"))
+        nodes.append(M("wait", None, group="k"))
+        for name in seq:
+            nodes.append(M("collect", g[0], *[D(o) for o in g[1:]], name=name))
+        for o in g:
+            nodes.append(M("complete", o, group="c"))
+        nodes.append(M("wait", None, group="c"))
+        nodes.append(M("collect", g[0], *[D(o) for o in g[1:]], name=seq[-1]))
+        nodes.append(M("close_run"))
+        return {
+            "name": "gen:c45:shared",
+            "plan": SEQ(*nodes),
+            "devices": {"dets": {"d1": {}}, "motors": {}, "sigs": {}, "flyers": {}, "streamdets": dets},
+            "stages": [{"do": "call"}],
+            "shared": True,
+        }
+
+    return gen()
+
+
+def check_shared(case):
+    obs = run_case(case)
+    res = Result()
+    res.klass = "shared_detectors"
+    call = obs.calls[0]
+    if obs.stuck or call.get("outcome") != "return":
+        exc = call.get("exc")
+        res.fail("plan_did_not_complete", f"RE(plan) -> {call.get('outcome')} {type(exc).__name__ if exc is not None else ''}: {exc}", shared=True)
+        return res
+    runs, problems = check_docs(obs.docs, idle=True, validate=True)
+    for kind, detail in problems:
+        res.fail("doc_" + kind, detail, shared=True)
+    if len(runs) != 1:
+        return res
+    run = next(iter(runs.values()))
+    ne = (run.stop or {}).get("num_events") or {}
+    desc_name = {u: d["name"] for u, d in run.descriptors.items()}
+    per = {}  # (stream, key) -> rows ; per key -> rows in emission order
+    per_key = {}
+    for sd in run.stream_datums:
+        r = run.stream_resources[sd["stream_resource"]]
+        row = (sd["indices"]["start"], sd["indices"]["stop"], sd["seq_nums"]["start"], sd["seq_nums"]["stop"])
+        per.setdefault((desc_name.get(sd["descriptor"]), r["data_key"]), []).append(row)
+        per_key.setdefault(r["data_key"], []).append(row)
+    streams_used = {s for (s, _k) in per}
+    res.nontrivial = len(streams_used) == 2
+    for (stream, k), rows in sorted(per.items(), key=repr):
+        ns = 1
+        for i0, i1, s0, s1 in rows:
+            if s0 != ns or i1 <= i0 or (s1 - s0) != (i1 - i0):
+                res.fail("seq_nums_not_contiguous_from_one", f"stream {stream} key {k}: (indices, seq_nums) rows {rows} (all rows of the key, both streams: {per_key[k]})", shared=True)
+                break
+            ns = s1
+        else:
+            if ns - 1 != ne.get(stream, 0):
+                res.fail("num_events_vs_frames", f"stream {stream} key {k}: {ns - 1} frames declared by its stream datums, num_events={ne.get(stream, 0)}", shared=True)
+    for k, rows in sorted(per_key.items()):
+        ni = 0
+        for i0, i1, _s0, _s1 in rows:
+            if i0 != ni:
+                res.fail("indices_not_contiguous", f"key {k}: index ranges {[(a, b) for a, b, _, _ in rows]} do not tile from 0", shared=True)
+                break
+            ni = i1
+    return res
+
+
+def check_any(case):
+    return check_shared(case) if case.get("shared") else check_case(case)
+
+
 def run(ctx):
     ctx.sweep([build_case(*f) for f in FIXED], check_case)
     ctx.hyp(cases, check_case, max_examples=ctx.pick(1500, 40000), tag="c45")
+    ctx.hyp(shared_cases, check_shared, max_examples=ctx.pick(300, 8000), tag="shared")
 
 
 def replay(case):
-    return check_case(case)
+    return check_any(case)
